@@ -50,35 +50,57 @@ def frame_table(ctx, H):
             for op in ops:
                 cases.append((op, (n + 1) % 2, n))
     rows = []
-    for op, mask, n in cases:
-        payload = bytes(rnd.getrandbits(8) for _ in range(min(n, 64))) + b"\x41" * max(0, n - 64)
-        if op == H.WebSocketOpCode.Text:
-            payload = bytes(0x20 + (b % 0x5f) for b in payload)
-        fr = H.WebSocketFrame()
-        fr.flags.fin = 1
-        fr.flags.opcode = op
-        fr.flags.mask = mask
-        fr.payload = payload
-        fr.payload_length = len(payload)
-        key = bytes(rnd.getrandbits(8) for _ in range(4))
-        fr.masking_key = key
-        try:
-            hdr = fr.serializeHeader() + fr.serializeDataHeader()
-        except Exception as e:
-            ctx.fail("serialising a %s frame of %d bytes raises %s" % (op.name, n, type(e).__name__), dict(op=op.name, mask=mask, n=n))
-            continue
-        wire_payload = bytes(b ^ key[i % 4] for i, b in enumerate(payload)) if mask else payload
-        buf = H.WebSocketTemporaryRingBuffer(FakeRequest())
-        buf._push(hdr + wire_payload)
-        try:
-            back = H.readFrameFactory(buf)()
-            pop, pmask, plen = back.flags.opcode.value, back.flags.mask, (back.payload_length if back.payload_length < 2 ** 31 else -2)
-            pok = int(bytes(back.payload) == payload)
-            left = len(buf.buf)
-        except Exception as e:
-            pop, pmask, plen, pok, left = -1, -1, -1, 0, -1
-        rows.append([op.value, mask, n, list(key), list(hdr), pop, pmask, plen, pok, left])
-        ctx.case(("frame", op.value, mask, n), nontrivial=n >= 126)
+    # frames are built, written and parsed in batches: several frames are alive at the same time (an application queues frames before it writes them; a
+    # reader holds a parsed frame while the next one arrives), and each must keep its own header fields
+    BATCH = 5
+    rnd.shuffle(cases)                        # so that a batch mixes opcodes, mask flags and length classes
+    for b0 in range(0, len(cases), BATCH):
+        batch = []
+        for op, mask, n in cases[b0:b0 + BATCH]:
+            payload = bytes(rnd.getrandbits(8) for _ in range(min(n, 64))) + b"\x41" * max(0, n - 64)
+            if op == H.WebSocketOpCode.Text:
+                payload = bytes(0x20 + (b % 0x5f) for b in payload)
+            fr = H.WebSocketFrame()
+            fr.flags.fin = 1
+            fr.flags.opcode = op
+            fr.flags.mask = mask
+            fr.payload = payload
+            fr.payload_length = len(payload)
+            key = bytes(rnd.getrandbits(8) for _ in range(4))
+            fr.masking_key = key
+            batch.append(dict(op=op, mask=mask, n=n, payload=payload, fr=fr, key=key))
+        for it in batch:                      # every frame of the batch exists before the first one is written
+            try:
+                it["hdr"] = it["fr"].serializeHeader() + it["fr"].serializeDataHeader()
+            except Exception as e:
+                ctx.fail("serialising a %s frame of %d bytes raises %s" % (it["op"].name, it["n"], type(e).__name__), dict(op=it["op"].name, mask=it["mask"], n=it["n"]))
+                it["hdr"] = None
+        for it in batch:
+            if it["hdr"] is None:
+                continue
+            wire_payload = bytes(b ^ it["key"][i % 4] for i, b in enumerate(it["payload"])) if it["mask"] else it["payload"]
+            buf = H.WebSocketTemporaryRingBuffer(FakeRequest())
+            buf._push(it["hdr"] + wire_payload)
+            try:
+                it["back"] = H.readFrameFactory(buf)()
+                it["left"] = len(buf.buf)
+            except Exception as e:
+                it["back"] = None
+        for it in batch:                      # ... and every parsed frame is read only after the last one was parsed
+            if it["hdr"] is None:
+                continue
+            back = it.get("back")
+            if back is not None:
+                try:
+                    pop, pmask, plen = back.flags.opcode.value, back.flags.mask, (back.payload_length if back.payload_length < 2 ** 31 else -2)
+                    pok = int(bytes(back.payload) == it["payload"])
+                    left = it["left"]
+                except Exception:
+                    pop, pmask, plen, pok, left = -1, -1, -1, 0, -1
+            else:
+                pop, pmask, plen, pok, left = -1, -1, -1, 0, -1
+            rows.append([it["op"].value, it["mask"], it["n"], list(it["key"]), list(it["hdr"]), pop, pmask, plen, pok, left])
+            ctx.case(("frame", it["op"].value, it["mask"], it["n"]), nontrivial=it["n"] >= 126)
     wd = T.workdir("c18")
     try:
         path = os.path.join(wd, "frames.json")
